@@ -214,6 +214,8 @@ def run(rep, tier, seed):
                           {"kind": "readonly", "desc": tr["desc"], "call": e["fn"], "clause": cl, "calls_before": [x["fn"] for x in tr["events"][:rj["event"] - 1]][-30:]})
     rep.notes.update(read_only_entry_points=sorted(ops), ordered_pairs=len(pairs), events_judged=nev, trees=[tr["desc"] for tr in traces][:12])
     rep.sample({"tree": traces[0]["desc"], "calls": [e["fn"] for e in traces[0]["events"][:40]]})
+    from harness import suite
+    suite.run_for(rep, "C11")
     rep.cov["evaluations"] = nev
     rep.cov["distinct_nontrivial"] = len(pairs) + len(ops)
     rep.cov["rule"] = "distinct = read-only entry points and their ordered pairs (each applied on several trees); every event carries the full projection"
